@@ -84,6 +84,7 @@ def secondary(tier, n, seed=0):
     full = [dict(valname=v, rowperm=r, colperm=c, medium=m, sparse=s, rowindex=ri) for v in ("value", "amount") for r in ROWPERMS for c in COLPERMS for m in ("memory", "csv") for s in (False, True) for ri in ("default", "repeat")]
     # label columns of pandas' categorical dtype (in-memory frames)
     full = full + [dict(d, cat=True) for d in full if d["medium"] == "memory" and d["rowindex"] == "default" and not d["sparse"]]
+    full = full + [dict(d, inf=True) for d in full if d["rowindex"] == "default" and d["valname"] == "value" and not d.get("cat")]
     if tier == "thorough":
         return full
     # quick: three members of the full product per base layout, rotating so that every value of every axis
@@ -129,6 +130,9 @@ def run_case(keys, lay):
     case = dict(kind="layout", keys=keys, layout=lay)
     sparse = bool(lay.get("sparse"))
     recs = F.records(keys, sparse)
+    if lay.get("inf") and len(recs) >= 2:  # two entries are infinite (values like any other: present, not NaN)
+        recs[0] = (recs[0][0], float("inf"))
+        recs[-1] = (recs[-1][0], float("-inf"))
     recs_in = [r for r in recs if not (sparse and r[1] == 0.0)]
     st, built = attempt(lambda: F.build_frame(keys, recs_in, lay))
     if st == "raised":
@@ -143,6 +147,9 @@ def run_case(keys, lay):
         tags["outcome"] = "refused"
         return "fail", dict(case=case, tags=tags, what=f"{desc}: from_df refused a valid layout: {got}", observed=df.head(6).to_string())
     want = F.array_of(keys, sparse).values
+    if lay.get("inf") and len(recs) >= 2:
+        want = want.copy()
+        want.flat[0], want.flat[-1] = np.inf, -np.inf
     if tuple(got.values.shape) != tuple(want.shape):
         tags["outcome"] = "shape"
         return "fail", dict(case=case, tags=tags, what=f"{desc}: imported shape {got.values.shape}")
